@@ -285,6 +285,28 @@ fn judge_det_scaling(st: &mut Stats, rng: &mut Rng, class: &str, ar: &DM<Rat>) {
     }
 }
 
+/// Graded matrices with an exact oracle: for block upper-triangular [[B11, H],[0, B22]] the elimination of the B11 columns
+/// has zero multipliers for the lower block, so H never mixes into B22 and the pivots are those of B11 and B22 computed
+/// separately; det must equal det(B11)*det(B22) (up to the association of one product) however huge H is.
+fn judge_block_graded(st: &mut Stats, rng: &mut Rng) {
+    st.next_case();
+    let (n1, n2) = (rng.usize(1, 4), rng.usize(1, 4));
+    let n = n1 + n2;
+    let blk = |rng: &mut Rng, k: usize| -> Vec<Vec<f64>> { (0..k).map(|_| (0..k).map(|_| rng.int(-9, 9) as f64).collect()).collect() };
+    let (b11, b22) = (blk(rng, n1), blk(rng, n2));
+    let e = rng.int(40, 200) as i32;
+    let a: Vec<Vec<f64>> = (0..n).map(|i| (0..n).map(|j| if i < n1 && j < n1 { b11[i][j] } else if i >= n1 && j >= n1 { b22[i - n1][j - n1] } else if i < n1 { rng.int(-9, 9) as f64 * 2f64.powi(e) } else { 0.0 }).collect()).collect();
+    st.eval();
+    if let (Outcome::Ok(d1), Outcome::Ok(d2), o) = (catch(|| mat_f64(&b11).determinant()), catch(|| mat_f64(&b22).determinant()), catch(|| mat_f64(&a).determinant())) {
+        let want = d1 * d2;
+        match o {
+            Outcome::Ok(d) => if !d.is_finite() || (d - want).abs() > 8.0 * U * want.abs() { st.violation("C02:determinant:f64:graded-block-triangular", format!("det = {:e} but det(B11)*det(B22) = {:e} * {:e}; A={:?}", d, d1, d2, a)); },
+            oo => st.violation("C02:determinant:f64:graded-block-triangular", format!("{}; A={:?}", oo.describe(), a)),
+        }
+    }
+    st.count("det:f64:graded-block-triangular");
+}
+
 fn all_types(st: &mut Stats, class: &str, ar: &DM<Rat>, ac: &DM<CRat>) {
     judge_exact(st, class, ar);
     judge_exact(st, class, ac);
@@ -328,7 +350,12 @@ pub fn run(ctx: &Ctx) -> Report {
                 let kind = rng.below(5) as u32;
                 let cname = ["dense", "sparse-pattern", "triangular", "perm-like", "zero-diagonal"][kind as usize];
                 let mut r2 = rng.clone();
+                judge_block_graded(st, rng);
                 let mut ar = if sel < 2 { let p = rng.perm(n); plu_exact::<Rat>(rng, &p, kind % 3) } else { rand_dense_exact::<Rat>(rng, n, kind) };
+                // exactly symmetric matrices (a value coincidence a symmetric fast path would key on), some with a tiny
+                // leading entry 2^-40 so that unpivoted elimination would be unstable
+                let symmetric = sel >= 2 && sel < 5 && rng.chance(0.3);
+                if symmetric { for i in 0..n { for j in 0..i { ar.a[i][j] = ar.a[j][i]; } } if rng.bool() { ar.a[0][0] = Rat::new(rng.nzint(3) as i128, 1i128 << 40); } }
                 let mut ac = if sel < 2 { let p = r2.perm(n); plu_exact::<CRat>(&mut r2, &p, kind % 3) } else { rand_dense_exact::<CRat>(&mut r2, n, kind) };
                 if sel >= 6 {
                     let how = rng.below(5);
@@ -342,13 +369,13 @@ pub fn run(ctx: &Ctx) -> Report {
                     let bc = rand_dense_exact::<CRat>(rng, n, 0);
                     judge_product_rule(st, &ac, &bc);
                 } else {
-                    all_types(st, if sel < 2 { "plu" } else { cname }, &ar, &ac);
+                    all_types(st, if sel < 2 { "plu" } else if symmetric { "symmetric" } else { cname }, &ar, &ac);
                 }
             }
         }
     });
     let mut rep = Report::new(stats,
-        "cases: all n! permutation matrices and scaled permutations for n<=6 (quick)/7 (thorough), P*L*U matrices for every such P (parity of forced exchanges), random dense/sparse-pattern/triangular/permutation-like/zero-diagonal integer matrices of order 1..8, rank-deficient families (zero row, zero column, proportional rows, rank n-2, dependent last column), det(AB)=det(A)det(B); each through Rat, CRat, f64, Complex<f64>. Non-trivial: n>=2 and determinant (and inverse when nonsingular) judged; distinct = distinct (type,class,matrix) hashes");
+        "cases: all n! permutation matrices and scaled permutations for n<=6 (quick)/7 (thorough), P*L*U matrices for every such P (parity of forced exchanges), random dense/sparse-pattern/triangular/permutation-like/zero-diagonal integer matrices of order 1..8, rank-deficient families (zero row, zero column, proportional rows, rank n-2, dependent last column), det(AB)=det(A)det(B), exactly symmetric matrices (some with a 2^-40 leading entry), graded block upper-triangular matrices with a 2^40..2^200 off-diagonal block; each through Rat, CRat, f64, Complex<f64>. Non-trivial: n>=2 and determinant (and inverse when nonsingular) judged; distinct = distinct (type,class,matrix) hashes");
     rep.assumptions = vec![
         "exact model: harness Gauss-Jordan over Rat/CRat with first-nonzero pivoting".into(),
         "float demands: data are integer/dyadic so the exact determinant/inverse are known; nonsingular cases need kappa_inf<=1e8; singular cases: result finite and |det| <= n*tau(n)*prod(row 2-norms)".into(),
